@@ -58,7 +58,7 @@ def applyHeader (disableNorm : Bool) (st : HState) (key value : Bytes) : HState 
         | some v => { err := false, head := { hd with cl := v, clBytes := value } }
       else st
     else if c = 99 ∧ ciEq key strConnection then
-      if value = strClose then { st with head := { hd with connClose := true } }
+      if ciEq value strClose then { st with head := { hd with connClose := true } }   -- any letter case
       else { st with head := { hd with connClose := false, h := hd.h ++ [(key, value)] } }
     else if c = 115 ∧ ciEq key strServer then { st with head := { hd with server := value } }
     else if c = 115 ∧ ciEq key strSetCookie then { st with head := { hd with cookies := hd.cookies ++ [value] } }
